@@ -154,6 +154,42 @@ def c06_targeted():
         add("nested-down-in-branch:" + pair, "let f() : %s &{l : rep \\/ %s 1} = case self ( l<c> => d <- shift c; wait d; close self )" % (m2, m1))
         add("nested-up-in-up:" + pair, "let f(x : aff 1) : %s /\\ %s (%s /\\ rep 1) = y <- shift self; z <- shift y; wait x; close z" % (m2, m2, m1))
         add("nested-up-in-choice:" + pair, "type C = %s +{l : lin /\\ %s 1}\nlet f(x : C) : lin 1 = case x ( l<c> => r : lin 1 <- new cast c<self>; wait r; close self )" % (m2, m1))
+    # ---- the HEAD of the antecedent's / the provider's type is itself a shift (or any other constructor): the mode
+    # that counts is the mode of the channel (target mode of a down shift, source mode of ... as the code defines it),
+    # not a mode found inside the type.  All 64 triples (k, m, n) at every place where an antecedent meets a provider.
+    for k, m, n in itertools.product(MODES, MODES, MODES):
+        tr = "%s-%s-%s" % (k, m, n)
+        add("head-down-param:" + tr, "let f(x : %s \\/ %s 1) : %s 1 = y <- shift x; wait y; close self" % (k, m, n))
+        add("head-down-param-drop:" + tr, "let f(x : %s \\/ %s 1) : %s 1 = y <- shift x; drop y; close self" % (k, m, n))
+        add("head-down-param-alias:" + tr, "type D = %s \\/ %s 1\nlet f(x : D) : %s 1 = y <- shift x; wait y; close self" % (k, m, n))
+        add("head-up-param-drop:" + tr, "let f(x : %s /\\ %s 1) : %s 1 = drop x; close self" % (k, m, n))
+        add("head-up-param-cast:" + tr, "let f(x : %s /\\ %s 1) : %s 1 = y : %s 1 <- new cast x<self>; wait y; close self" % (k, m, n, k))
+        add("head-down-cut-ann:" + tr, "let f(z : %s 1) : %s 1 = y : %s \\/ %s 1 <- new cast self<z>; w <- shift y; wait w; close self" % (k, n, k, m))
+        add("head-down-cut-call:" + tr, "let g(z : %s 1) : %s \\/ %s 1 = cast self<z>\nlet f(z : %s 1) : %s 1 = y <- new g(z); w <- shift y; wait w; close self" % (k, k, m, k, n))
+        add("head-down-cut-call-alias:" + tr, "type D = %s \\/ %s 1\nlet g(z : %s 1) : D = cast self<z>\nlet f(z : %s 1) : %s 1 = y <- new g(z); w <- shift y; wait w; close self" % (k, m, k, k, n))
+        add("head-up-cut-ann:" + tr, "let f() : %s 1 = y : %s /\\ %s 1 <- new (u <- shift self; close u); drop y; close self" % (n, k, m))
+        # the provider's type is a shift and a cut stands in front of the shift (p = n here: the spawned channel)
+        add("prov-up-cut-before-shift:" + tr, "let g() : %s /\\ %s 1 = x : %s 1 <- new close self; z <- shift self; wait x; close z" % (k, m, n))
+        add("prov-up-cut-before-shift-drop:" + tr, "let g() : %s /\\ %s 1 = x : %s 1 <- new close self; z <- shift self; drop x; close z" % (k, m, n))
+        add("prov-up-cut-call-before-shift:" + tr, "let h() : %s 1 = close self\nlet g() : %s /\\ %s 1 = x <- new h(); z <- shift self; wait x; close z" % (n, k, m))
+        add("prov-up-alias-cut-before-shift:" + tr, "type U = %s /\\ %s 1\nlet g() : U = x : %s 1 <- new close self; z <- shift self; wait x; close z" % (k, m, n))
+        add("prov-up-prc-cut-before-shift:" + tr, "prc[a] : %s /\\ %s 1 = x : %s 1 <- new close self; z <- shift self; wait x; close z" % (k, m, n))
+        add("prov-down-cut-before-cast:" + tr, "let g(z : %s 1) : %s \\/ %s 1 = x : %s 1 <- new close self; wait x; cast self<z>" % (k, k, m, n))
+        add("prov-up-cut-after-shift:" + tr, "let g() : %s /\\ %s 1 = z <- shift self; x : %s 1 <- new close self; wait x; close z" % (k, m, n))
+    # every other head constructor of the provider's type (mode m) with a cut (mode p) in front of its first action,
+    # and of the antecedent's type (mode m) against a provider of mode n
+    for m, p_ in itertools.product(MODES, MODES):
+        pair = "%s-%s" % (m, p_)
+        add("prov-head-tensor:" + pair, "let g(a : %s 1) : %s (1 * 1) = x : %s 1 <- new close self; wait x; b : %s 1 <- new close self; send self<a, b>" % (m, m, p_, m))
+        add("prov-head-lolli:" + pair, "let g() : %s (1 -* 1) = x : %s 1 <- new close self; <a, s> <- recv self; wait x; wait a; close s" % (m, p_))
+        add("prov-head-plus:" + pair, "let g() : %s +{l : 1} = x : %s 1 <- new close self; wait x; c : %s 1 <- new close self; self.l<c>" % (m, p_, m))
+        add("prov-head-with:" + pair, "let g() : %s &{l : 1} = x : %s 1 <- new close self; case self ( l<s> => wait x; close s )" % (m, p_))
+        add("ante-head-tensor:" + pair, "let f(x : %s (1 * 1)) : %s 1 = <a, b> <- recv x; wait a; wait b; close self" % (m, p_))
+        add("ante-head-lolli:" + pair, "let f(x : %s (1 -* 1)) : %s 1 = a : %s 1 <- new close self; b : %s 1 <- new send x<a, self>; wait b; close self" % (m, p_, m, m))
+        add("ante-head-plus:" + pair, "let f(x : %s +{l : 1}) : %s 1 = case x ( l<c> => wait c; close self )" % (m, p_))
+        add("ante-head-with:" + pair, "let f(x : %s &{l : 1}) : %s 1 = c : %s 1 <- new x.l<self>; wait c; close self" % (m, p_, m))
+        add("ante-head-alias:" + pair, "type A = %s 1\ntype B = A\nlet f(x : B) : %s 1 = wait x; close self" % (m, p_))
+        add("ante-head-drop:" + pair, "let f(x : %s (1 * 1)) : %s 1 = drop x; close self" % (m, p_))
     return out
 
 
